@@ -74,7 +74,9 @@ def oracle(suite, args, out):
 
 
 def relation(suite, args, mo, io):
-    return True if suite in ("api_fuzz", "big_draw") else mo == io
+    # C01 is about returning at all: only the tile lists are compared with the model here (the corpus also replays fills of
+    # cubics that need CubicEdge's pin, found by tools/dev/find_pin_cubics.py; their spans are C02's subject)
+    return mo == io if suite == "tiles" else True
 
 
 def nontrivial_tag(suite, args, out):
